@@ -63,6 +63,12 @@ class HealSparseFits(object):
                 raise RuntimeError('Readonly is only useful mode supported for astropy.io.fits')
             self.fits_object = fits.open(filename, memmap=True, lazy_load_hdus=True,
                                          mode=fits_mode)
+            # Integer images stored with an offset (int8 and the unsigned types)
+            # cannot be memory-mapped by astropy.
+            if any(hdu.is_image and hdu.header.get('BZERO', 0) != 0 for hdu in self.fits_object):
+                self.fits_object.close()
+                self.fits_object = fits.open(filename, memmap=False, lazy_load_hdus=True,
+                                             mode=fits_mode)
 
     def read_ext_header(self, extension):
         """
@@ -104,7 +110,15 @@ class HealSparseFits(object):
         else:
             hdu = self.fits_object[extension]
             if hdu.is_image:
-                return _image_bitpix2npy[hdu._bitpix]
+                bitpix = hdu._bitpix
+                if getattr(hdu, '_orig_bzero', hdu.header.get('BZERO', 0)) != 0:
+                    # int8 and the unsigned types are stored with an offset;
+                    # these use the same type codes as fitsio.
+                    bitpix = getattr(hdu, '_orig_bitpix', bitpix)
+                    bitpix = {8: 10, 16: 20, 32: 40}.get(bitpix, bitpix)
+                    if bitpix == 64:
+                        return 'u8'
+                return _image_bitpix2npy[bitpix]
             else:
                 return hdu.data[0: 1].dtype
 
